@@ -84,11 +84,15 @@ class _Server:
 
 
 # ---------------------------------------------------------------- workers
-def _run_workers(mode, jobs):
+def _run_workers(mode, jobs, env_extra=None):
     if not jobs:
         return []
     chunks = [jobs[i::JOBS] for i in range(JOBS)]
     env = dict(os.environ)
+    if env_extra:
+        for k in ("LANG", "LANGUAGE", "LC_CTYPE"):
+            env.pop(k, None)
+        env.update(env_extra)
 
     def one(chunk):
         if not chunk:
@@ -539,37 +543,41 @@ def _run(ctx, tmp, server):
 
     # ---------------- histories: runs into the same target ----------------
     _histories(ctx, run, tmp)
+    _locale_runs(ctx, run, tmp)
 
     # ---------------- K2b: repr / literal_eval ----------------
     _k2_values(ctx, run, live)
 
 
 def _histories(ctx, run, tmp):
-    """Sequences of graphql_schema() runs in one project directory, into the same target path(s), with changing
-    settings (variable names, target suffix) and changing schema content whose files are OLDER or newer than the
-    target (os.utime).  Model (Model/SchemaGen.v run_history, C16_history_is_last_step / _refused_keeps): after
-    each step the target holds the fresh output of that step's inputs if the settings accept the names, and is
-    untouched otherwise - never a function of what it held before."""
+    """Sequences of strategy runs in ONE project directory and ONE process: graphql_schema() into the same target
+    path(s) with changing settings (variable names, target suffix) and changing schema content whose files are OLDER
+    or newer than the target (os.utime), interleaved with main.client() runs over the same or another schema path.
+    Model (Model/SchemaGen.v run_process / run_history; C16_process_ignores_clients, C16_history_is_last_step,
+    C16_history_refused_keeps): after each graphql_schema step the target holds the fresh output of that step's
+    inputs if the settings accept the names, and is untouched otherwise - never a function of what it held before
+    or of what ran before in the process.  The fresh outputs come from OTHER processes, one directory each."""
     import time
 
     rng = random.Random(ctx.seed * 7919 + 13)
     n_hist = 96 if ctx.thorough else 16
     now = time.time()
-    jobs, metas = [], []
+    jobs, metas, fresh_jobs = [], [], []
+    targets = {"py": "out/gen_schema.py", "graphql": "out/gen_schema.graphql", "gql": "out/gen_schema.gql"}
     for h in range(n_hist):
         d = os.path.join(tmp, f"hist{h}")
-        os.makedirs(d)
-        layout = rng.choice(["file", "file", "dir"])
-        targets = {"py": "out/gen_schema.py", "graphql": "out/gen_schema.graphql", "gql": "out/gen_schema.gql"}
         os.makedirs(os.path.join(d, "out"))
+        layout = rng.choice(["file", "file", "dir"])
+        schema_path = "schema_src/schema.graphql" if layout == "file" else "schema_src"
         steps, meta = [], []
         tm, sn, fmt = "type_map", "schema", "py"
         sdl = c16_gen.Gen(random.Random(rng.randrange(1 << 30)), size=0.7, printable=True).schema()
         n_steps = rng.randint(3, 6)
+        with_clients = h % 2 == 0
         for k in range(n_steps):
             change = "first" if k == 0 else rng.choice(
                 ["names", "names", "tm", "sn", "schema-older", "schema-older", "schema-newer", "suffix", "bad-names",
-                 "nothing", "names+schema-older"])
+                 "nothing", "nothing", "names+schema-older"])
             mtime = None
             if "names" in change:
                 tm, sn = rng.choice(TM_NAMES) + str(k), rng.choice([x for x in SN_NAMES]) + str(k)
@@ -588,62 +596,162 @@ def _histories(ctx, run, tmp):
                 stm, ssn = rng.choice([(rng.choice(BAD_NAMES), sn), (tm, rng.choice(BAD_NAMES)), (tm, tm)])
             files = {"schema.graphql": sdl} if layout == "file" else \
                 {"a.graphql": sdl, "sub/extra.gql": "scalar ExtraFromSecondFile\n"}
-            section = {"schema_path": "schema_src/schema.graphql" if layout == "file" else "schema_src",
-                       "target_file_path": targets[fmt], "schema_variable_name": ssn, "type_map_variable_name": stm}
-            steps.append({"files": files, "mtime": mtime, "config": {"tool": {"ariadne-codegen": section}}})
-            meta.append({"change": change, "tm": stm, "sn": ssn, "target": targets[fmt], "older": mtime is not None})
+            # a client() run in the same process before this step (always at least once per such history)
+            if with_clients and (k == 1 or rng.random() < 0.4):
+                same = k == 1 or rng.random() < 0.6
+                root = _query_root(sdl) if same else "Query"
+                csection = {"schema_path": schema_path if same else "other_src/other.graphql",
+                            "target_package_name": "c16_client_pkg", "include_comments": "none"}
+                extra = {"other_src/other.graphql": "type Query {\n  other: Int\n}\n"}
+                csection["queries_path"] = "queries.graphql"          # required by the client settings
+                extra["queries.graphql"] = rng.choice(["query C16Probe {\n  __typename\n}\n",
+                                                        "query A {\n  __typename\n}\n\nquery B {\n  t: __typename\n}\n"])
+                # the client step comes AFTER the schema of this step is in place (written now, untouched by the
+                # graphql_schema step that follows)
+                steps.append({"kind": "client", "files": files, "mtime": mtime, "extra": extra,
+                              "config": {"tool": {"ariadne-codegen": csection}}})
+                meta.append({"kind": "client", "change": "client-same-schema" if same else "client-other-schema"})
+                run.dist("history-steps", meta[-1]["change"])
+                mtime_for_gen = None
+            else:
+                mtime_for_gen = mtime
+            section = {"schema_path": schema_path, "target_file_path": targets[fmt], "schema_variable_name": ssn,
+                       "type_map_variable_name": stm}
+            cfg = {"tool": {"ariadne-codegen": section}}
+            steps.append({"kind": "gen", "files": files, "mtime": mtime_for_gen, "config": cfg})
+            meta.append({"kind": "gen", "change": change, "tm": stm, "sn": ssn, "target": targets[fmt],
+                         "older": mtime is not None, "fresh": len(fresh_jobs)})
+            fresh_jobs.append({"dir": os.path.join(d, f"fresh{len(steps)}"), "files": files, "config": cfg})
             run.dist("history-steps", change)
         jobs.append({"dir": d, "steps": steps, "targets": sorted(targets.values())})
         metas.append(meta)
     results = _run_workers("history", jobs)
-    oks = model.batch("C16", [[Sym("settings"), m["tm"], m["sn"]] for meta in metas for m in meta], chunk=500)
-    it = iter(oks)
+    fresh = _run_workers("fresh", fresh_jobs)
+    gens = [m for meta in metas for m in meta if m["kind"] == "gen"]
+    oks = model.batch("C16", [[Sym("settings"), m["tm"], m["sn"]] for m in gens], chunk=500)
+    for m, a in zip(gens, oks):
+        m["accepted"] = a[0] == "t"
     for h, (job, meta, res) in enumerate(zip(jobs, metas, results)):
         if not isinstance(res, list):
             run.broken("history worker", str(res)[:400])
-            for _ in meta:
-                next(it)
             continue
         held = {}                       # model of the directory: target path -> content
+        broken = False
         for k, (st, m, r) in enumerate(zip(job["steps"], meta, res)):
             run.count()
-            accepted = next(it)[0] == "t"
-            trail = [{kk: mm[kk] for kk in ("change", "tm", "sn", "target", "older")} for mm in meta[: k + 1]]
+            trail = [{kk: mm.get(kk) for kk in ("kind", "change", "tm", "sn", "target", "older")} for mm in meta[: k + 1]]
             replay = {"history": trail, "layout": "dir" if len(st["files"]) > 1 else "file",
-                      "steps": [{"config": s_["config"], "files": s_["files"], "mtime": s_["mtime"]}
-                                for s_ in job["steps"][: k + 1]]}
-            if accepted:
-                if not r["fresh_run"]["ok"] or r["fresh_text"] is None:
-                    run.violation(f"history {h} step {k}: fresh generation failed: {r['fresh_run'].get('error')}", replay)
-                    break
-                expected = r["fresh_text"]
-                if not r["run"]["ok"]:
-                    run.violation(f"history {h} step {k} ({m['change']}): run in the used directory failed: "
-                                  f"{r['run'].get('error')}", replay)
-                    break
+                      "steps": [{"kind": s_["kind"], "config": s_["config"], "files": s_["files"], "mtime": s_["mtime"],
+                                 "extra": s_.get("extra")} for s_ in job["steps"][: k + 1]]}
+            if m["kind"] == "client":
+                run.dist("history-client-runs", "ok" if r["client"]["ok"] else "failed: " + r["client"]["error"].split(":")[0])
             else:
-                expected = held.get(m["target"])
-                if r["run"]["ok"] or not str(r["run"].get("error", "")).startswith("InvalidConfiguration"):
-                    run.violation(f"history {h} step {k}: names {m['tm']!r}/{m['sn']!r} not refused", replay)
+                f = fresh[m["fresh"]]
+                if m["accepted"]:
+                    if not f["run"]["ok"] or f["text"] is None:
+                        run.violation(f"history {h} step {k}: fresh generation failed: {f['run'].get('error')}", replay)
+                        broken = True
+                        break
+                    expected = f["text"]
+                    if not r["run"]["ok"]:
+                        run.violation(f"history {h} step {k} ({m['change']}): run in the used directory failed: "
+                                      f"{r['run'].get('error')}", replay)
+                        broken = True
+                        break
+                else:
+                    expected = held.get(m["target"])
+                    if r["run"]["ok"] or not str(r["run"].get("error", "")).startswith("InvalidConfiguration"):
+                        run.violation(f"history {h} step {k}: names {m['tm']!r}/{m['sn']!r} not refused", replay)
+                        broken = True
+                        break
+                if r["text"] != expected:
+                    stale = next((j for j in range(k - 1, -1, -1) if meta[j]["kind"] == "gen" and res[j]["text"] == r["text"]
+                                  and meta[j]["target"] == m["target"]), None)
+                    before = [mm["change"] for mm in meta[:k] if mm["kind"] == "client"]
+                    run.violation(
+                        f"history {h} step {k} ({m['change']}; names {m['tm']}/{m['sn']}; schema files "
+                        f"{'older' if m['older'] else 'newer'} than the target; client() runs earlier in the process: "
+                        f"{before or 'none'}): {m['target']} is not the fresh generation of this step's inputs"
+                        + (f" - it still holds the output of step {stale}" if stale is not None else
+                           " - first difference: " + _text_diff(r["text"], expected)
+                           + (" (the target defines the codegen-only directive @mixin, which is not in the schema source)"
+                              if "mixin" in (r["text"] or "") and "mixin" not in (expected or "") else ""))
+                        + f"; strategy said: {r['run'].get('stdout', '')[-120:]!r}",
+                        dict(replay, observed=(r["text"] or "")[:3000], expected=(expected or "")[:3000]))
+                    broken = True
                     break
-            if r["text"] != expected:
-                stale = next((j for j in range(k - 1, -1, -1) if res[j]["text"] == r["text"] and meta[j]["target"] == m["target"]),
-                             None)
-                run.violation(
-                    f"history {h} step {k} ({m['change']}; names {m['tm']}/{m['sn']}; schema files "
-                    f"{'older' if m['older'] else 'newer'} than the target): {m['target']} is not the fresh generation of "
-                    f"this step's inputs" + (f" - it still holds the output of step {stale}" if stale is not None else "")
-                    + f"; strategy said: {r['run'].get('stdout', '')[-120:]!r}",
-                    dict(replay, observed=(r["text"] or "")[:1500], expected=(expected or "")[:1500]))
-                break
-            held[m["target"]] = r["text"]
-            # the other targets of the directory are not touched by this step
+                held[m["target"]] = r["text"]
+            # the (other) schema targets of the directory are not touched by this step
             for t, exists in r["others"].items():
                 if exists != (held.get(t) is not None):
-                    run.violation(f"history {h} step {k}: unrelated target {t} appeared/disappeared", replay)
-        else:
+                    run.violation(f"history {h} step {k} ({m['change']}): schema target {t} appeared/disappeared", replay)
+                    broken = True
+        if not broken:
             run.nontrivial_case(f"history-{h}-{ctx.seed}")
-    run.extra["histories"] = {"histories": n_hist, "steps": sum(len(m) for m in metas)}
+    run.extra["histories"] = {"histories": n_hist, "steps": sum(len(m) for m in metas),
+                              "graphql_schema_steps": len(gens)}
+
+
+def _query_root(sdl):
+    return "Query"
+
+
+def _text_diff(a, b):
+    if a is None or b is None:
+        return f"{'missing' if a is None else 'present'} vs {'missing' if b is None else 'present'}"
+    al, bl = a.splitlines(), b.splitlines()
+    for i, (x, y) in enumerate(zip(al, bl)):
+        if x != y:
+            return f"line {i + 1}: {x.strip()[:120]!r} vs {y.strip()[:120]!r}"
+    return f"length {len(al)} vs {len(bl)} lines"
+
+
+def _locale_runs(ctx, run, tmp):
+    """The strategy under a non-UTF-8 locale (LC_ALL=C, PYTHONUTF8=0, PYTHONCOERCECLOCALE=0: open() defaults to
+    ASCII) on schemas with non-ASCII text in every string position, both targets: the target must be the same bytes
+    as under UTF-8 (it is written with an explicit encoding) and nothing else may be left next to it."""
+    rng = random.Random(ctx.seed * 104729 + 7)
+    n = 48 if ctx.thorough else 10
+    jobs = []
+    for i in range(n):
+        sdl = c16_gen.Gen(random.Random(rng.randrange(1 << 30)), size=0.6, printable=True, unicode_all=True).schema()
+        for fmt in ("py", "graphql"):
+            section = {"schema_path": "schema_src/schema.graphql", "target_file_path": f"out/gen_schema.{fmt}",
+                       "schema_variable_name": "schema", "type_map_variable_name": "type_map"}
+            jobs.append({"files": {"schema.graphql": sdl}, "config": {"tool": {"ariadne-codegen": section}}, "fmt": fmt})
+    ref = _run_workers("fresh", [dict(j, dir=os.path.join(tmp, f"loc_utf8_{i}")) for i, j in enumerate(jobs)],
+                       env_extra={"PYTHONUTF8": "1"})
+    loc = _run_workers("fresh", [dict(j, dir=os.path.join(tmp, f"loc_c_{i}")) for i, j in enumerate(jobs)],
+                       env_extra={"LC_ALL": "C", "PYTHONUTF8": "0", "PYTHONCOERCECLOCALE": "0"})
+    for j, a, b in zip(jobs, ref, loc):
+        run.count()
+        sdl = j["files"]["schema.graphql"]
+        nonascii = sum(1 for ch in sdl if ord(ch) > 127)
+        replay = {"environment": "LC_ALL=C PYTHONUTF8=0 PYTHONCOERCECLOCALE=0", "config": j["config"], "sdl": sdl}
+        enc_ = b.get("encoding")
+        run.dist("locale-runs", f"{j['fmt']}/preferred-encoding={enc_}")
+        if enc_ and enc_.lower().replace("-", "") in ("utf8",):
+            run.broken("locale run", f"the C-locale worker still reports preferred encoding {enc_}")
+            continue
+        if not a.get("run", {}).get("ok") or a.get("text") is None:
+            run.violation(f"UTF-8 reference run failed: {a.get('run', a).get('error')}", replay)
+            continue
+        want_listing = [os.path.basename(j["config"]["tool"]["ariadne-codegen"]["target_file_path"])]
+        problems = []
+        if not b.get("run", {}).get("ok"):
+            problems.append(f"the strategy fails: {b.get('run', b).get('error')}")
+        elif b.get("text") != a["text"]:
+            problems.append("the target differs from the one written under UTF-8: " + _text_diff(b.get("text"), a["text"]))
+        if b.get("listing") is not None and b["listing"] != want_listing:
+            problems.append(f"files left next to the target: {b['listing']}")
+        if a.get("listing") != want_listing:
+            problems.append(f"(UTF-8 run) files left next to the target: {a.get('listing')}")
+        if problems:
+            run.violation(f"C16 fails under a non-UTF-8 locale ({j['fmt']} target, {nonascii} non-ASCII characters in the "
+                          f"schema): " + "; ".join(problems)[:500], replay)
+        else:
+            run.nontrivial_case(f"locale-{ctx.seed}-{len(run.nontrivial)}")
+    run.extra["locale_runs"] = len(jobs)
 
 
 def _settings_tie(ctx, run, tmp):
